@@ -39,6 +39,9 @@ func watchdogDelay(c *Case) time.Duration {
 	if c.TwoWriters != nil {
 		return 90 * time.Second // real-time case with its own 20 s limits per step
 	}
+	if c.Flood != "" {
+		return 60 * time.Second // more than 10000 signed items are made and handled: seconds of real time
+	}
 	return 20 * time.Second
 }
 
